@@ -19,19 +19,30 @@ int __wrap_json_c_get_random_seed(void)
 	return seed_calls++ == 0 ? -1 : HARNESS_SEED;
 }
 
-/* ---- watchdog: an op that does not return is a result, not a hang of the check */
+/* ---- watchdog: an op that does not return is a result, not a hang of the check.  The timer counts
+ * CPU time of this process (every op takes microseconds), the handler jumps back to the main loop, the
+ * op is answered "HANG", the rest of its case is abandoned (the table is dropped, not freed); after
+ * HANG_LIMIT hangs later cases are answered without being run, so a broken loop costs seconds. */
+#include <setjmp.h>
+#define HANG_LIMIT 8
+static sigjmp_buf hang_jmp;
+static volatile int hang_armed;
+static int hangs, abandoned;
 static void on_alarm(int sig)
 {
-	static const char msg[] = "HANG the call did not return within 10 s\n";
 	(void)sig;
-	if (write(1, msg, sizeof(msg) - 1) < 0) {}
-	_exit(98);
+	if (hang_armed)
+	{
+		hang_armed = 0;
+		siglongjmp(hang_jmp, 1);
+	}
 }
-static void arm(int secs)
+static void arm_us(long secs, long usecs)
 {
-	struct itimerval it = {{0, 0}, {secs, 0}};
-	setitimer(ITIMER_REAL, &it, NULL);
+	struct itimerval it = {{0, 0}, {secs, usecs}};
+	setitimer(ITIMER_PROF, &it, NULL);
 }
+static void arm(int secs) { arm_us(secs, 0); }
 
 /* ---- caller-supplied hash functions (mirrored in lean/Driver/Lh.lean) */
 static unsigned long atoi_key(const char *k)
@@ -264,7 +275,7 @@ int main(void)
 	struct sigaction sa;
 	memset(&sa, 0, sizeof sa);
 	sa.sa_handler = on_alarm;
-	sigaction(SIGALRM, &sa, NULL);
+	sigaction(SIGPROF, &sa, NULL);
 	pool = (char **)calloc(POOLMAX, sizeof(char *));
 	while (hc_read())
 	{
@@ -272,12 +283,34 @@ int main(void)
 		{
 			puts(hc_line);
 			fflush(stdout);
-			arm(10);
+			arm(0);
+			if (abandoned)
+			{
+				T = NULL; /* dropped on purpose: a call was interrupted in the middle */
+				O = NULL;
+				abandoned = 0;
+			}
 			teardown();
 			continue;
 		}
+		if (abandoned || hangs >= HANG_LIMIT)
+		{
+			puts(abandoned ? "HANG-ABANDONED (an earlier call of this case did not return)" : "HANG-LIMIT (not run)");
+			fflush(stdout);
+			continue;
+		}
 		hc_split();
-		arm(10);
+		if (sigsetjmp(hang_jmp, 1))
+		{
+			arm(0);
+			hangs++;
+			abandoned = 1;
+			puts("HANG the call did not return (endless loop)");
+			fflush(stdout);
+			continue;
+		}
+		hang_armed = 1;
+		arm_us(0, 400000);
 		if (NW == 3 && !strcmp(W[0], "load"))
 		{
 			printf("%d\n", load_test(atoi(W[2]), atoi(W[1])));
@@ -537,6 +570,9 @@ int main(void)
 		fflush(stdout);
 	}
 	arm(0);
+	hang_armed = 0;
+	if (hangs)
+		_exit(0); /* tables of interrupted calls were dropped: no leak report */
 	teardown();
 	free(pool);
 	free(itbuf);
